@@ -105,7 +105,8 @@ func directiveTruncate(value data.Value, args []data.Value) data.Value {
 		}
 	}
 
-	for !utf8.RuneStart(str[maxLen]) {
+	// (a value of UTF-8 continuation bytes only has no rune start to stop at)
+	for maxLen > 0 && !utf8.RuneStart(str[maxLen]) {
 		maxLen--
 	}
 
